@@ -17,7 +17,7 @@ LEVEL_TEXT = ('Theorems in coq/theories/Properties/C06.v, for every commutative 
               'w*embedding (all/some/none inside), extent queries = integer sets. The executable model the theorems '
               'are about is extracted and compared for equality with lentil on every run.')
 LEVEL_NOTE = ('Trusted: Coq kernel, extraction (ExtrOcamlBasic), the correspondence harness; numpy slicing/broadcasting is '
-              'modelled, not verified. Known finding: product of two one-element fields with unequal offsets is empty.')
+              'modelled, not verified. Known finding: product of two 0-d fields with unequal offsets is empty.')
 TRUSTED = ['Coq 8.16.1 kernel (coqc; coqchk in the thorough tier)',
            'extraction with ExtrOcamlBasic only; ocaml/driver.ml',
            'harness/props/c06.py: case codec, canvas rendering oracle',
@@ -330,10 +330,9 @@ def compare(c, impl, model):
         if impl['kind'] == 'empty':
             return None
         box = canvas_box([c['a'], c['b']])
-        one_i, one_m = size_of(impl) == 1, size_of(model) == 1
-        if one_i != one_m:
-            return 'one-element-ness of the product differs'
-        if one_i and size_of(c['a']) == 1 and size_of(c['b']) == 1:
+        if impl['tag'] != model['tag']:
+            return 'dimensionality (0-d / 2-d) of the product differs'
+        if impl['tag'] == 0:
             return None if value_of(impl) == value_of(model) else 'constant product differs'
         return None if canvases_equal(canon_render(impl, box), canon_render(model, box)) else 'product embeddings differ'
     if op == 'merge':
@@ -371,13 +370,13 @@ def oracle(c, impl):
         a, b = c['a'], c['b']
         if 'err' in impl:
             return f'product raised {impl["err"]}'
-        sa, sb = size_of(a) == 1, size_of(b) == 1
+        # only 0-d data is an infinite constant; an array with one element is one sample
+        sa, sb = a['tag'] == 0, b['tag'] == 0
         if sa and sb:
-            # one-element x one-element: the infinite constant va*vb
             if impl['kind'] == 'empty':
-                return 'product of two one-element fields is empty (should be the constant product)'
-            if size_of(impl) != 1 or value_of(impl) != value_of(a) * value_of(b):
-                return 'product of two one-element fields is not the constant product'
+                return 'product of two 0-d fields is empty (should be the constant product)'
+            if impl['tag'] != 0 or value_of(impl) != value_of(a) * value_of(b):
+                return 'product of two 0-d fields is not the constant product'
             return None
         box = canvas_box([a, b])
         exp = [[(value_of(a) if sa else embed_pt(a, r, cc)) * (value_of(b) if sb else embed_pt(b, r, cc))
@@ -468,7 +467,7 @@ def oracle(c, impl):
 
 def known_match(f, c, impl):
     if f['id'] == 'C06-scalar-scalar-offsets':
-        return (c['op'] == 'mul' and size_of(c['a']) == 1 and size_of(c['b']) == 1
+        return (c['op'] == 'mul' and c['a']['tag'] == 0 and c['b']['tag'] == 0
                 and c['a']['off'] != c['b']['off'] and impl.get('kind') == 'empty')
     return False
 
